@@ -32,19 +32,22 @@ func init() {
 type c10Tree struct {
 	name  string
 	valid bool
+	// mayPanic: rendering this tree is documented to panic (an unsupported Lit type); a panic
+	// that reaches the caller is then as good as an error - but nothing may have been written
+	mayPanic bool
 	// build returns a statement usable both as a fragment and as the only item of a File body
 	build func() *jen.Statement
 }
 
 var c10Trees = []c10Tree{
-	{"var", true, func() *jen.Statement { return jen.Var().Id("x").Op("=").Lit(1) }},
-	{"func", true, func() *jen.Statement {
+	{"var", true, false, func() *jen.Statement { return jen.Var().Id("x").Op("=").Lit(1) }},
+	{"func", true, false, func() *jen.Statement {
 		return jen.Func().Id("f").Params().Block(jen.Qual("fmt", "Println").Call(jen.Lit("a")), jen.Return())
 	}},
-	{"type-comment", true, func() *jen.Statement {
+	{"type-comment", true, false, func() *jen.Statement {
 		return jen.Type().Id("T").Struct(jen.Id("A").Int().Comment("a"), jen.Id("B").Qual("a/b", "C")).Line().Comment("done")
 	}},
-	{"big", true, func() *jen.Statement {
+	{"big", true, false, func() *jen.Statement {
 		return jen.Func().Id("g").Params().BlockFunc(func(g *jen.Group) {
 			for i := 0; i < 1500; i++ {
 				g.Id(fmt.Sprintf("v%d", i)).Op(":=").Lit(strings.Repeat("x", 40))
@@ -52,14 +55,14 @@ var c10Trees = []c10Tree{
 			}
 		})
 	}},
-	{"empty-func", true, func() *jen.Statement { return jen.Func().Id("e").Params().Block() }},
-	{"dict", true, func() *jen.Statement {
+	{"empty-func", true, false, func() *jen.Statement { return jen.Func().Id("e").Params().Block() }},
+	{"dict", true, false, func() *jen.Statement {
 		return jen.Var().Id("m").Op("=").Map(jen.String()).Int().Values(jen.Dict{jen.Lit("a"): jen.Lit(1), jen.Lit("b"): jen.Qual("x/y", "Z")})
 	}},
-	{"bad-brace", false, func() *jen.Statement { return jen.Var().Id("x").Op("=").Op("{") }},
-	{"bad-func", false, func() *jen.Statement { return jen.Func().Params().Op("}").Block(jen.Return()) }},
-	{"bad-keyword", false, func() *jen.Statement { return jen.Var().Var().Id("x") }},
-	{"bad-big", false, func() *jen.Statement {
+	{"bad-brace", false, false, func() *jen.Statement { return jen.Var().Id("x").Op("=").Op("{") }},
+	{"bad-func", false, false, func() *jen.Statement { return jen.Func().Params().Op("}").Block(jen.Return()) }},
+	{"bad-keyword", false, false, func() *jen.Statement { return jen.Var().Var().Id("x") }},
+	{"bad-big", false, false, func() *jen.Statement {
 		return jen.Func().Id("g").Params().BlockFunc(func(g *jen.Group) {
 			for i := 0; i < 6000; i++ {
 				g.Id(fmt.Sprintf("v%d", i)).Op(":=").Lit(i)
@@ -67,7 +70,7 @@ var c10Trees = []c10Tree{
 			g.Op(")")
 		})
 	}},
-	{"bad-huge", false, func() *jen.Statement {
+	{"bad-huge", false, false, func() *jen.Statement {
 		// more than 1 MiB of source, invalid only at the very end
 		return jen.Const().DefsFunc(func(g *jen.Group) {
 			for i := 0; i < 12000; i++ {
@@ -76,12 +79,16 @@ var c10Trees = []c10Tree{
 			g.Op(")").Id("oops")
 		})
 	}},
-	{"bad-call", false, func() *jen.Statement { return jen.Var().Id("x").Op("=").Id("f").Call(jen.Op(";")).Op("(") }},
-	{"bad-string", false, func() *jen.Statement { return jen.Var().Id("x").Op("=").Op(`"unterminated`) }},
+	{"bad-call", false, false, func() *jen.Statement { return jen.Var().Id("x").Op("=").Id("f").Call(jen.Op(";")).Op("(") }},
+	{"bad-string", false, false, func() *jen.Statement { return jen.Var().Id("x").Op("=").Op(`"unterminated`) }},
+	// a tree that fails while it is being rendered, after text that is valid Go by itself
+	{"bad-late-panic", false, true, func() *jen.Statement {
+		return jen.Var().Id("x").Op("=").Lit(1).Line().Lit(struct{ A int }{1})
+	}},
 	// invalid compositions that render as one word
-	{"bad-lone-keyword", false, func() *jen.Statement { return jen.Func() }},
-	{"bad-identifier", false, func() *jen.Statement { return jen.Id("9x") }},
-	{"bad-dotted-word", false, func() *jen.Statement { return jen.Id("a.") }},
+	{"bad-lone-keyword", false, false, func() *jen.Statement { return jen.Func() }},
+	{"bad-identifier", false, false, func() *jen.Statement { return jen.Id("9x") }},
+	{"bad-dotted-word", false, false, func() *jen.Statement { return jen.Id("a.") }},
 }
 
 type c10Entry struct {
@@ -197,9 +204,15 @@ func c10Writer(c *explore.Ctx, ei, ti int, nf bool) (msg string, fw *faultWriter
 	fw = &faultWriter{c: c}
 	o := jh.Catch(func() (string, error) { return "", e.run(t, nf, fw) })
 	if o.Panic != nil {
+		if t.mayPanic {
+			if fw.calls != 0 {
+				return fmt.Sprintf("rendering panicked (%v) but the writer had received %d call(s), %d bytes", o.Panic, fw.calls, fw.buf.Len()), fw
+			}
+			return "", fw
+		}
 		return fmt.Sprintf("panic: %v", o.Panic), fw
 	}
-	if refOut.Panic != nil {
+	if refOut.Panic != nil && !t.mayPanic {
 		return fmt.Sprintf("reference render panicked: %v", refOut.Panic), fw
 	}
 	if !t.valid {
@@ -346,10 +359,17 @@ func c10Save(ti, gi int, nf bool) string {
 		before, _ = os.Stat(target)
 	}
 	var ref bytes.Buffer
-	refErr := c10File(t, nf).Render(&ref)
+	refOut := jh.Catch(func() (string, error) { return "", c10File(t, nf).Render(&ref) })
+	refErr := refOut.Err
+	if refOut.Panic != nil {
+		refErr = fmt.Errorf("panic: %v", refOut.Panic)
+	}
 	o := jh.Catch(func() (string, error) { return "", c10File(t, nf).Save(target) })
 	if o.Panic != nil {
-		return fmt.Sprintf("Save panicked: %v", o.Panic)
+		if !t.mayPanic {
+			return fmt.Sprintf("Save panicked: %v", o.Panic)
+		}
+		o.Err = fmt.Errorf("panic: %v", o.Panic) // as good as an error; what follows checks that nothing was touched
 	}
 	failedRender := refErr != nil
 	if failedRender || g.expectErr {
@@ -462,6 +482,73 @@ func (failFirst) Write(p []byte) (int, error) { return 0, errors.New("writer clo
 
 // c10SaveSequence: one File saved to one path several times while something else rewrites the
 // path in between; after every successful Save the file holds exactly the rendered output.
+// c10RepeatedFailures: a File that cannot be rendered is rendered and saved again and again - every
+// attempt must fail, write nothing and leave the target alone (an answer remembered from a failed
+// attempt must not turn into success).
+func c10RepeatedFailures() []string {
+	var problems []string
+	files := []struct {
+		name string
+		mk   func() *jen.File
+	}{
+		{"a package comment that swallows the package clause", func() *jen.File {
+			f := jen.NewFile("p")
+			f.PackageComment("/* open")
+			f.Var().Id("x").Op("=").Lit(1)
+			f.Comment("closed */")
+			return f
+		}},
+		{"a header comment that swallows the package clause", func() *jen.File {
+			f := jen.NewFile("p")
+			f.HeaderComment("/* open")
+			f.Comment("closed */")
+			f.Var().Id("x").Op("=").Lit(1)
+			return f
+		}},
+		{"an unbalanced body", func() *jen.File {
+			f := jen.NewFile("p")
+			f.Var().Id("x").Op("=").Op("{")
+			return f
+		}},
+	}
+	dir, err := os.MkdirTemp("", "verif-c10r-")
+	if err != nil {
+		return nil
+	}
+	defer os.RemoveAll(dir)
+	for _, fc := range files {
+		f := fc.mk()
+		target := filepath.Join(dir, "out.go")
+		os.WriteFile(target, []byte(c10Old), 0o644)
+		for attempt := 1; attempt <= 4; attempt++ {
+			w := &countWriter{}
+			o := jh.Catch(func() (string, error) { return "", f.Render(w) })
+			switch {
+			case o.Panic != nil:
+				problems = append(problems, fmt.Sprintf("%s: Render attempt %d panics: %v", fc.name, attempt, o.Panic))
+			case o.Err == nil:
+				problems = append(problems, fmt.Sprintf("%s: Render attempt %d returned nil and wrote %q", fc.name, attempt, jh.Short(w.buf.String(), 120)))
+			case w.calls != 0:
+				problems = append(problems, fmt.Sprintf("%s: Render attempt %d failed but wrote %d bytes", fc.name, attempt, w.buf.Len()))
+			}
+			so := jh.Catch(func() (string, error) { return "", f.Save(target) })
+			b, _ := os.ReadFile(target)
+			switch {
+			case so.Panic != nil:
+				problems = append(problems, fmt.Sprintf("%s: Save attempt %d panics: %v", fc.name, attempt, so.Panic))
+			case so.Err == nil:
+				problems = append(problems, fmt.Sprintf("%s: Save attempt %d returned nil", fc.name, attempt))
+			case string(b) != c10Old:
+				problems = append(problems, fmt.Sprintf("%s: Save attempt %d failed but the target now holds %d bytes", fc.name, attempt, len(b)))
+			}
+			if len(problems) > 0 {
+				break
+			}
+		}
+	}
+	return problems
+}
+
 func c10SaveSequence() []string {
 	var problems []string
 	dir, err := os.MkdirTemp("", "verif-c10s-")
@@ -512,7 +599,7 @@ func runC10(r *ev.Recorder) {
 	r.Rule = fmt.Sprintf("writer faults: %d entry points (File.Render with formatting on/off, Statement.Render, Statement.RenderWithFile, Group.Render, Group.RenderWithFile) x %d trees (6 valid, 6 invalid, of different sizes) x EVERY answer sequence of the writer "+
 		"(each Write call answered ok / error / short write + error, the error wrapping one of 9 identities real writers fail with - a plain error, EPIPE and ENOSPC as *os.PathError, io.ErrClosedPipe, io.ErrShortWrite, io.EOF, os.ErrClosed, EAGAIN, EINTR; explored exhaustively by the choice-point explorer - whatever number of calls the implementation makes). Oracle: invalid tree => error and ZERO writer calls; "+
 		"any injected fault => the returned error Is that fault (never nil); no fault => concatenated writes equal the bytes the same tree renders into a bytes.Buffer. "+
-		"Sequences: every sequence of 2 and 3 fragment renders (Statement / Group RenderWithFile; valid and invalid trees; good and failing writer) that share ONE File: a failed step must leave no trace - every successful step writes what a File that saw only the successful steps writes. Save: %d trees x %d filesystem situations (absent, existing longer/shorter than the output, directory, missing parent, parent is a file, name too long, a private 'always full' character device, symlink) x formatting on/off. "+
+		"Sequences: every sequence of 2 and 3 fragment renders (Statement / Group RenderWithFile; valid and invalid trees; good and failing writer) that share ONE File: a failed step must leave no trace - every successful step writes what a File that saw only the successful steps writes. Three Files that cannot be rendered (comments swallowing the package clause, an unbalanced body) rendered and saved four times each: every attempt fails, writes nothing, leaves the target alone. Save: %d trees x %d filesystem situations (absent, existing longer/shorter than the output, directory, missing parent, parent is a file, name too long, a private 'always full' character device, symlink) x formatting on/off. "+
 		"Oracle: failed render => error, existing target byte-identical with unchanged mtime, directory listing unchanged; unwritable target => error and unchanged listing; success => file content exactly the rendered bytes. "+
 		"distinct_nontrivial = distinct executions with at least one injected fault, an invalid tree, or an fs situation other than 'absent'", len(c10Entries), len(c10Trees), len(c10Trees), len(c10Targets))
 	r.Assume = []string{"the sandbox runs as root: permission faults (EACCES) cannot be produced; the other causes are", "an io.Writer that returns n < len(p) also returns an error (its contract)"}
@@ -587,6 +674,11 @@ func runC10(r *ev.Recorder) {
 	}
 	r.Eval(7)
 	r.Distinct("save-sequence")
+	for _, msg := range c10RepeatedFailures() {
+		r.Violate(ev.Violation{Signature: "c10:repeated-failure:" + problemKind(msg), What: "one unrenderable File rendered and saved four times: " + msg, Case: ev.JSON(c10Case{Kind: "savesequence", Desc: msg}), Detail: msg})
+	}
+	r.Eval(24)
+	r.Distinct("repeated-failures")
 	for ti := range c10Trees {
 		for gi := range c10Targets {
 			for _, nf := range []bool{false, true} {
